@@ -14,8 +14,9 @@ import (
 
 func init() {
 	Register(&Monitor{
-		ID:    "C08",
-		Level: "exploration",
+		ID:         "C08",
+		Level:      "exploration",
+		Exhaustive: []string{"grid"},
 		Rule: "exhaustive: every number literal form the scanner accepts (3, 3., .5, 007, 12345.678, ...) alone, negated and doubly negated; number() of every lexical class of string (plain, signed, padded, non-numeric, empty, and the forms Go accepts but XPath does not: 1e3, +5, Inf, 0x10, 1_0) with and without padding; every operator + - * div over a grid of operands incl. NaN and +-Infinity; mod over 0..20 x 1..9; floor/ceiling over a grid; string() of every grid value with magnitude < 10^6. " +
 			"Seeded random arithmetic trees of depth <= 4 over literals, unary minus, + - * div, mod, floor, ceiling, number(), count(), sum(), string-length() of flat paths on documents with numeric and non-numeric values (sum over a non-numeric node is out of fragment and skipped), and string() of their finite results below 10^6. " +
 			"Non-trivial: the tree has at least one operator or function; distinct by (expression text, document, context).",
@@ -169,8 +170,9 @@ func c08Random(c *Case) {
 
 func init() {
 	Register(&Monitor{
-		ID:    "C09",
-		Level: "exploration",
+		ID:         "C09",
+		Level:      "exploration",
+		Exhaustive: []string{"substring", "pairs"},
 		Rule: "exhaustive substring sweep: every string of a 14-string ASCII alphabet (incl. '', whitespace-only, 1..11 chars) x start in {-3 .. len+3 step 0.5} x length in {absent, -2 .. len+4 step 0.5, 100} (and NaN / +-Infinity arguments); every other function (concat, contains, starts-with, ends-with, substring-before, substring-after, string-length, normalize-space, translate, lower-case, string) over all pairs/triples of the alphabet; " +
 			"seeded random nestings to depth 4 with flat node-set arguments (string-value of the first node in document order, '' for the empty node-set) and string-join over flat paths. Non-trivial: the result is a non-empty string, true, or a non-zero number; distinct by (expression text, document, context).",
 		Assume:        []string{"reference evaluator internal/xref (string functions transcribed from the XPath 1.0 recommendation, round-half-up positions)", "ASCII arguments only, as the statement says"},
